@@ -12,7 +12,7 @@ from framework import Result, finish, proof_obligations
 
 PROP = "C09"
 NEEDS = ["model/Values.v", "model/Eval.v", "model/Loader.v", "model/Serialize.v", "model/Unparse.v", "model/Skeleton.v", "proofs/SerializeP.v",
-         "proofs/UnparseP.v", "proofs/RoundtripP.v", "extract/Extract.v", "model/Render.v", "proofs/RenderP.v"]
+         "proofs/UnparseP.v", "proofs/RoundtripP.v", "extract/Extract.v", "model/Render.v", "proofs/RenderP.v", "proofs/RenderLoadP.v"]
 EXTREME_F = [0.0, -0.0, 1.0, -1.5, 5e-324, 2.2250738585072014e-308, 1e300, -1e300, 1e-300, 1.7976931348623157e308, 0.1, 1 / 3, 123456789.123456789, 1e22, 1e-7, 1e16]
 EXTREME_I = [0, 1, -1, 7, 2 ** 31, -2 ** 31, 2 ** 53 + 1, 2 ** 62, -(2 ** 62)]
 
@@ -161,6 +161,13 @@ def build(rng):
                 o["kwargs"] = {k: fix(v) for k, v in o["kwargs"].items()}
                 if rng.random() < 0.5:
                     o["args"].append("")
+        # target / type OPTIONS are plain values in every program type: a string spelt like a p-name stays a string there
+        if rng.random() < 0.6:
+            if p._target["name"] is None:
+                p._target["name"] = "TD2"
+            p._target["options"] = dict(p._target["options"], profile=rng.choice(["p1", "p0", "p12"]))
+        if rng.random() < 0.4:
+            p._type["options"] = dict(p._type["options"], labels=[rng.choice(["p0", "p3"]), "x"])
     return p
 
 
